@@ -100,7 +100,7 @@ func firstChild(e *Exchange, ep string) *Exchange {
 
 // ownChildren: while two requests overlap, the calls recorded during a request may be the other
 // request's; a call belongs to the request whose session's token (or e-mail) it carries.
-func ownChildren(e *Exchange, access, refresh, email string) []*Exchange {
+func ownChildren(e *Exchange, access, refresh, email string, groups []string) []*Exchange {
 	if !e.Overlap {
 		return e.Children
 	}
@@ -120,7 +120,9 @@ func ownChildren(e *Exchange, access, refresh, email string) []*Exchange {
 				out = append(out, c)
 			}
 		case "profile":
-			if strings.Contains(c.RawQuery, "email="+strings.ReplaceAll(email, "@", "%40")) {
+			// the question about this user *and* this upstream's groups (two upstreams may be asking about one user)
+			if q, err := url.ParseQuery(c.RawQuery); err == nil && q.Get("email") == email &&
+				sameSet(strings.Split(q.Get("groups"), ","), strings.Split(strings.Join(groups, ","), ",")) {
 				out = append(out, c)
 			}
 		default:
@@ -272,9 +274,35 @@ func (o *Oracle) judgeMediation(e *Exchange, pol *Policy, path string) {
 			break
 		}
 	}
+	foreignProfile := ""
 	if e.Overlap && sv != nil {
 		own := *e
-		own.Children = ownChildren(e, sv.S.AccessToken, sv.S.RefreshToken, sv.S.Email)
+		own.Children = ownChildren(e, sv.S.AccessToken, sv.S.RefreshToken, sv.S.Email, pol.Groups)
+		for _, c := range e.Children {
+			if c.Link == L2 && endpointOf(c.Path) == "profile" {
+				if q, err := url.ParseQuery(c.RawQuery); err == nil && q.Get("email") == sv.S.Email && !containsEx(own.Children, c) {
+					foreignProfile = q.Get("groups")
+				}
+			}
+		}
+		// request coalescing (C16) lets a request join an identical call that another request started
+		// earlier: a call about this very token that was in flight while this request was being served counts as its own
+		for _, ep := range []string{"validate", "refresh"} {
+			if firstChild(&own, ep) != nil {
+				continue
+			}
+			for _, c := range o.w.Log.Ended(0, L2) {
+				if endpointOf(c.Path) != ep || c.At > e.Done || c.Done < e.At || c.Seq > e.Seq {
+					continue
+				}
+				if (ep == "validate" && c.ReqHdr.Get("X-Access-Token") == sv.S.AccessToken) ||
+					(ep == "refresh" && (strings.Contains(string(c.ReqBody), "refresh_token="+url.QueryEscape(sv.S.RefreshToken)) || strings.Contains(string(c.ReqBody), "refresh_token="+sv.S.RefreshToken))) {
+					own.Children = append([]*Exchange{c}, own.Children...)
+					o.res.cover("C16|world-twin|joined-earlier-call|" + ep)
+					break
+				}
+			}
+		}
 		e = &own
 		o.res.cover("C16|world-twin|judged")
 	}
@@ -371,6 +399,9 @@ func (o *Oracle) judgeMediation(e *Exchange, pol *Policy, path string) {
 			o.res.cover(key + "|served")
 			o.violate(e, "C01.A4-due-check-confirmed", fmt.Sprintf("%s check was due but /%s was never asked", due, firstEP), "due", due, "endpoint", firstEP)
 			o.violate(e, "C04.A5-served-only-after-confirmation", fmt.Sprintf("%s check was due but /%s was never asked", due, firstEP), "due", due, "endpoint", firstEP)
+			if pol.GroupsRequired() && foreignProfile != "" && firstChild(e, "profile") == nil {
+				o.violate(e, "C13.A5-policy-of-this-upstream", fmt.Sprintf("a request to %s (groups %v) was served while the only group check made was about %q — another upstream's rule", e.Host, pol.Groups, foreignProfile))
+			}
 		case "denied":
 			o.res.cover(key + "|served")
 			o.violate(e, "C04.A4-denied-means-refused", fmt.Sprintf("served although /%s answered %d (denied)", firstEP, obs[len(obs)-1].status), "endpoint", firstEP)
@@ -676,4 +707,13 @@ func (o *Oracle) judgeGroupQuestion(e *Exchange, pol *Policy) {
 			o.violate(e, "C11.A1-login-iff-admitted", fmt.Sprintf("upstream %s lists groups %v; the proxy asked the authenticator about %v", e.Host, pol.Groups, asked), "cause", "question-differs-from-rule")
 		}
 	}
+}
+
+func containsEx(xs []*Exchange, x *Exchange) bool {
+	for _, y := range xs {
+		if y == x {
+			return true
+		}
+	}
+	return false
 }
